@@ -11,11 +11,11 @@ PROPS_FILE = "Props/C21.v"
 MANIFEST = dict(
     text="Coq theorem C21_partial over the models of TypeParser.check_type (expand_and_check, superclass_auto_cast off) "
          "and TypeParser.coerce instantiated with the live coercion tables: if check_type accepts S -> T, S is not the "
-         "unchecked typing.Any, T has no `bytes` position and only hashable set-item / dict-key types, then every "
-         "value conforming to S whose collections match T's fixed tuple lengths is not rejected by coerce T (in a "
-         "file system where the named paths suit the formats); C21_refuted_bytes / C21_refuted_unhashable show the "
-         "two excluded classes are real static-accept / run-time-reject defects (findings F21a, F21b). Partial: the "
-         "statement at full strength is false on the pinned tree.",
+         "unchecked typing.Any, and T's set-item / dict-key types are hashable ones, then every value conforming to S "
+         "whose collections match T's fixed tuple lengths is not rejected by coerce T (in a file system where the "
+         "named paths suit the formats); C21_refuted_unhashable shows the excluded class is a real static-accept / "
+         "run-time-reject defect (finding F21b: list[list[int]] -> set[list[int]]). Partial: the statement at full "
+         "strength is false on the tree. (Finding F21a, collections accepted into bytes, is repaired.)",
     note="Trusted: Coq kernel + vm_compute; hand-written models of expand_and_check and expand_and_coerce (tables "
          "translated from the live source); superclass_auto_cast=True static checking is not modelled; file "
          "existence/format is an explicit hypothesis of the theorem; correspondence is differential testing.",
@@ -118,12 +118,10 @@ Definition world_excuse (t : ty) (p : vcase) : bool :=
 Definition viol (s t : ty) (st : result unit) (p : vcase) : bool :=
   premise s t st (fst p) && negb (is_ok (snd p)) && negb (world_excuse t p).
 Definition spec_full (c : case_t) : bool := let '(s, t, st, vs) := c in negb (existsb (viol s t st) vs).
-(* ... outside the two recorded finding classes *)
+(* ... outside the recorded finding class *)
 Definition spec_partial (c : case_t) : bool :=
   let '(s, t, st, vs) := c in
-  negb (existsb (fun p => viol s t st p && negb (bytes_hit t (fst p)) && negb (unhash_hit t (fst p))) vs).
-Definition cls_bytes (c : case_t) : bool :=
-  let '(s, t, st, vs) := c in negb (existsb (fun p => viol s t st p && bytes_hit t (fst p)) vs).
+  negb (existsb (fun p => viol s t st p && negb (unhash_hit t (fst p))) vs).
 Definition n_premise (c : case_t) : bool :=      (* true when no value of the case meets the premises *)
   let '(s, t, st, vs) := c in negb (existsb (fun p => premise s t st (fst p)) vs).
 Definition in_domain (c : case_t) : bool :=      (* false when the pair is in the domain of C21_partial *)
@@ -136,7 +134,7 @@ def run(ctx):
     rng = ctx.rng
     world = World()
     try:
-        n = ctx.budget(1500, 20000)
+        n = ctx.budget(1500, 10000)
         todo = []
         for c in ctx.corpus():
             if "S" in c:
@@ -169,7 +167,7 @@ def run(ctx):
                          "static": "accepted" if o_st[0] == "ok" else "rejected (%s)" % ("TypeError" if o_st[1] == "T" else o_st[2]),
                          "values": vmeta})
         checks = {"tie_static": "tie_static", "tie_dynamic": "tie_dynamic", "spec_full": "spec_full",
-                  "spec_partial": "spec_partial", "cls_bytes": "cls_bytes", "n_premise": "n_premise", "in_domain": "in_domain"}
+                  "spec_partial": "spec_partial", "n_premise": "n_premise", "in_domain": "in_domain"}
         res = coqio.run_cases(ctx.scratch, "c21", IMPORTS, "case_t", terms, checks,
                               extra=world.coq_fs() + "Definition W_all : world := {| w_abs := fun p => p; w_check := fun _ _ => None |}.\n" + EXTRA,
                               shard=400)
@@ -214,13 +212,12 @@ def run(ctx):
             m = meta[i]
             out.failures.append(Failure(case=case_of(m), observed={"dynamic": [v["dynamic"] for v in m["values"]]},
                                         expected="Model.Typing.coerce live W false T v", note="model/impl: coercion", kind="tie"))
-        bytes_cls = set(res["cls_bytes"])
-        shown = {"F21a": 0, "F21b": 0}
+        shown = {"F21b": 0}
         for i in res["spec_full"]:
             m = meta[i]
             fid = None
             if i not in res["spec_partial"]:
-                fid = "F21a" if i in bytes_cls else "F21b"
+                fid = "F21b"
                 shown[fid] += 1
                 if shown[fid] > 5:
                     continue
@@ -250,12 +247,12 @@ def replay(ctx, payload):
             x = v_py(v_norm(v), world)
             xs.append(x)
             print("implementation TypeParser(T)(%s): %s" % (show(x, world), show_obs(observe(lambda: TypeParser(t_py(T))(x)), world)))
-            terms.append("(coerce live W false %s %s, conformsb live %s %s, arity_ok %s %s, bytes_hit %s %s, unhash_hit %s %s)" % (
-                t_coq(T), enc(x), t_coq(S), enc(x), t_coq(T), enc(x), t_coq(T), enc(x), t_coq(T), enc(x)))
+            terms.append("(coerce live W false %s %s, conformsb live %s %s, arity_ok %s %s, unhash_hit %s %s)" % (
+                t_coq(T), enc(x), t_coq(S), enc(x), t_coq(T), enc(x), t_coq(T), enc(x)))
         vals = coqio.eval_terms(ctx.scratch, "replay", IMPORTS, terms, extra=world.coq_fs())
         print("model check_type:", vals[0])
         for x, val in zip(xs, vals[1:]):
-            print("model (coerce, value conforms to S, arity ok, F21a class, F21b class) for %s: %s" % (show(x, world), world.collapse(val)))
+            print("model (coerce, value conforms to S, arity ok, F21b class) for %s: %s" % (show(x, world), world.collapse(val)))
     finally:
         world.close()
     return 0
